@@ -309,8 +309,9 @@ class Paragraph(BlockToken):
 
     def __new__(cls, lines):
         if not isinstance(lines, list):
-            # setext heading token, return directly
-            return lines
+            # setext heading: the token is built here, after the block phase, so that its inline
+            # content sees link reference definitions from anywhere in the document.
+            return SetextHeading(list(lines))
         return super().__new__(cls)
 
     def __init__(self, lines):
@@ -335,7 +336,7 @@ class Paragraph(BlockToken):
             # check if the paragraph being parsed is in fact a Setext heading
             if cls.parse_setext and cls.is_setext_heading(next_line):
                 line_buffer.append(next(lines))
-                return SetextHeading(line_buffer)
+                return tuple(line_buffer)
 
             # finish the check for paragraph-breaking tokens with the special case: ThematicBreak
             if ThematicBreak.check_interrupts_paragraph(lines):
